@@ -137,6 +137,15 @@ T = {
  "C13-7": ("C13", "a87e428", "a cache Put failing after the snapshot file was added (second save)", ["C13"], "VIOLATION (native replay) by VerifC13SaveFault"),
  "C16-8": ("C16", "a87e428", "PutBatch of several documents with a storage error on a later member", ["C16"], "VIOLATION (native replay) by VerifC16BatchFailure"),
  "C18-8": ("C18", "a87e428", "Drop reaching its reset section while a local write is inside Append", ["C18"], "VIOLATION (deadlock) by VerifC18DropDuring"),
+ # round 13 (base 011957e)
+ "C01-8": ("C01", "011957e", "a kv / document snapshot saved by a store whose entry map is not in log order (replicated entries), loaded by LoadFromSnapshot", ["C01"], "VIOLATION (native replay) by VerifC01Docs"),
+ "C05-8": ("C05", "011957e", "restart on the same directory designated by another string (absolute vs relative, symlink), default ID and keystore options", ["C05"], "VIOLATION (native replay) by VerifC05Identity (restarted-through-another-spelling)"),
+ "C06-8": ("C06", "011957e", "Put with the empty string as key, then Get of it", ["C06"], "VIOLATION (native replay) by VerifC06EdgeKeys"),
+ "C08-7": ("C08", "011957e", "a store opened with a non-default SortFn, a multi-writer history with a concurrent pair, close, reopen, Load into the empty log", ["C08"], "VIOLATION (native replay) by VerifC08SortFn"),
+ "C12-8": ("C12", "011957e", "one heads message with at least 17 acceptable heads (one genuine head repeated)", ["C12"], "VIOLATION (deadlock) by VerifC12RepeatedHeads"),
+ "C15-7": ("C15", "011957e", "limit given through MaxHistory, more than one cached head, log longer than the limit", ["C15"], "VIOLATION (native replay) by VerifC15Load"),
+ "C17-6": ("C17", "011957e", "two goroutines calling PutAll on one document store, one entering while the other is between two documents of its batch", ["C17"], "VIOLATION (interpreter-schedule, P=1) by VerifC17DocsConcurrent"),
+ "C20-8": ("C20", "011957e", "two concurrent Sends to the same peer with a payload over 16 KiB", ["C20"], "VIOLATION by VerifC12RawFrame / VerifC20FrameRoundTrip"),
 }
 for seed, (prop, base, needs, by, note) in T.items():
     d = os.path.join(V, "seeded", seed)
